@@ -35,7 +35,7 @@ AUTO = E("DisplayType", "auto")
 # --- F-time ------------------------------------------------------------------------------------------
 
 BEGINS_FULL = [None, F(1), F(3, 2)]
-ENDS_FULL = [None, F(1), F(2), F(7, 2)]
+ENDS_FULL = [None, F(0), F(1), F(2), F(7, 2)]      # end = 0: never active (and 0 is falsy in Python)
 BEGINS_SMALL = [None, F(1)]
 ENDS_SMALL = [None, F(2)]
 LEVELS = ["region", "body", "div", "p", "span"]
